@@ -759,9 +759,11 @@ def c15(run):
 def c16(run):
     n = 3 if run.tier == "quick" else 4
     jobs = [dict(module="MC_Api", cfg=api_cfg("history", "{1}", True, n), name="MC_Api_hist", timeout=3000, workers=4),
-            dict(module="MC_Api", cfg=api_cfg("history", "{1}", False, min(n, 3)), name="MC_Api_histn", timeout=3000, workers=4),
-            dict(module="MC_Api", cfg=api_cfg("historyd", "{1}", True, n), name="MC_Api_histd", timeout=3000, workers=4)]
-    sts = run.tlc_many(jobs, parallel=3)
+            dict(module="MC_Api", cfg=api_cfg("history", "{1}", False, n - 1), name="MC_Api_histn", timeout=3000, workers=4),
+            # operations that differ in the shape of their data: every history of n - 1 of all of them, of n of a core of twelve
+            dict(module="MC_Api", cfg=api_cfg("historyd", "{1}", True, n - 1), name="MC_Api_histd", timeout=3000, workers=4),
+            dict(module="MC_Api", cfg=api_cfg("historydc", "{1}", True, n), name="MC_Api_histdc", timeout=3000, workers=4)]
+    sts = run.tlc_many(jobs, parallel=4)
     for st in sts:
         path, cnt = run.records(st)
         run.replay("api", path, name="api-" + st["cfg"], timeout_ms=8000)
